@@ -208,6 +208,20 @@ var templates = []*template{
 		a := app.StringArg("ARG", "", "")
 		return outcome(app, []string{"t11", "-v", "x", "-e", "cli"}, func() string { return fmt.Sprintf("e=%q v=%v ARG=%q", *e, *v, *a) })
 	}},
+	{name: "T12 application declaring its own option named h (`-h --host`), used with a value", run: func() string {
+		app := cli.App("t12", "")
+		app.ErrorHandling = flag.ContinueOnError
+		h := app.StringOpt("h host", "localhost", "")
+		p := app.IntOpt("p port", 80, "")
+		return outcome(app, []string{"t12", "--host", "example.org", "-p", "8080"}, func() string { return fmt.Sprintf("host=%q port=%d", *h, *p) })
+	}},
+	{name: "T13 help request with the short token (-h) under ContinueOnError", run: func() string {
+		app := cli.App("t13", "")
+		app.ErrorHandling = flag.ContinueOnError
+		v := app.BoolOpt("v verbose", false, "")
+		x := app.StringArg("X", "", "")
+		return outcome(app, []string{"t13", "-v", "-h"}, func() string { return fmt.Sprintf("v=%v X=%q", *v, *x) })
+	}},
 }
 
 // runTemplate sets the template's environment, builds and runs it in its own goroutine (an Exit ends it),
